@@ -106,6 +106,15 @@ class Visitor(ast.NodeVisitor):
         self.visit(node.iter)
         bound, cbound = [], []
         it = node.iter
+        if isinstance(it, ast.Call) and isinstance(it.func, ast.Name) and it.func.id == 'enumerate' and len(it.args) == 1 and isinstance(it.args[0], (ast.Tuple, ast.List)) \
+                and isinstance(node.target, ast.Tuple) and len(node.target.elts) == 2:
+            # for j, name in enumerate([...literals...]): the index ranges over 0..len-1, the name over the literals
+            elts = it.args[0].elts
+            ti, tn = node.target.elts
+            if isinstance(ti, ast.Name):
+                self.strenv[ti.id] = {str(k_) for k_ in range(len(elts))}; bound.append(ti.id)
+            if isinstance(tn, ast.Name) and all(self.possible(x) is not None for x in elts):
+                self.strenv[tn.id] = set().union(*[self.possible(x) for x in elts]) if elts else set(); bound.append(tn.id)
         if isinstance(it, (ast.Tuple, ast.List)):
             elts = it.elts
             if isinstance(node.target, ast.Name) and all(self.possible(x) is not None for x in elts):
